@@ -167,8 +167,17 @@ func fragRun(src string, rsize int, vec []uint64) (outs []uint64, err error) {
 			vm.InputsValid[i] = true
 		}
 	}
+	// settled: the outputs have not changed for several complete passes of the longest program (a value
+	// crosses from one processor to another once per pass, and a graph of n instances needs up to n crossings)
+	longest, ninst := 1, strings.Count(src, "%meta fidef ")
+	for _, d := range bm.Domains {
+		if n := len(d.Program.Slocs); n > longest {
+			longest = n
+		}
+	}
+	window := 4*longest + 150
 	last, stable := "", 0
-	for t := 0; t < 4000 && stable < 150; t++ {
+	for t := 0; t < window*(ninst+8) && stable < window; t++ {
 		if _, err := vm.Step(nil); err != nil {
 			return nil, fmt.Errorf("simulator tick %d: %v", t, err)
 		}
